@@ -108,6 +108,23 @@ def cases(seed, tier):
         c = grammar.schedule(rng, case, dv, nsteps)
         c["variant"] = j
         yield c
+    # faults placed inside the operation that creates in-flight state: a pause (then resume) landing while the
+    # initial position is being read ('locate' / 'read' of the motor awaiting an asynchronous device)
+    probes = [e.d["n"] for e in dv.of("msg") if e.d["cmd"] in ("locate", "read") and e.d["obj"] in exp_motors(case)]
+    for j, n_ in enumerate(probes[:3]):
+        c = copy.deepcopy(case)
+        c["variant"] = f"locate{j}"
+        for m in exp_motors(case):
+            c["devices"][m].setdefault("async", {})
+            c["devices"][m]["async"]["locate"] = 0.05
+            c["devices"][m]["async"]["read"] = 0.05
+        c["script"][0]["inject"] = [{"id": "pl", "at": {"msg": n_, "plus": rng.choice([0, 1, 2])}, "do": "pause"}]
+        c["script"][0]["decisions"] = [{"do": "resume"}]
+        yield c
+
+
+def exp_motors(case):
+    return list(case["expect"]["offsets"])
 
 
 def close(a, b):
